@@ -65,6 +65,22 @@ func init() {
 				raceItems = append(raceItems, it)
 			}
 		}
+		// long lexemes (identifiers of 60 to 300 bytes) in inputs that fail: error values are rendered, and every
+		// goroutine reads the same source bytes
+		for _, fl := range [][]string{nil, {"-zip"}} {
+			lg := &gram.Grammar{
+				Lex: []gram.LexDef{{Name: "id", Kind: "tok", P: gram.Seq(gram.Rng('a', 'z'), gram.Rep(gram.Rng('a', 'z')))}, {Name: "num", Kind: "tok", P: gram.Seq(gram.Rng('0', '9'), gram.Rep(gram.Rng('0', '9')))}, {Name: "!ws", Kind: "ign", P: gram.Lit(' ')}},
+				Alts: []gram.Alt{{Head: "S", Body: []gram.Sym{{Name: "id"}, {Name: "num"}}}, {Head: "S", Body: []gram.Sym{{Name: "num"}, {Name: "S"}}}},
+			}
+			it := corp.NewItem("LongTok", gram.WithRecActions(lg), fl...)
+			it.RtImp = true
+			long := func(c byte, n int) string { return strings.Repeat(string(c), n) }
+			it.Extra = map[string]any{"sources": []string{
+				long('a', 60) + " 1", long('a', 60) + " " + long('b', 70), "1 2 " + long('c', 300) + " " + long('d', 45),
+				long('7', 80) + " " + long('8', 50) + " x y", long('e', 41) + "?" + long('f', 41), "1 " + long('g', 120) + " ?",
+			}}
+			raceItems = append(raceItems, it)
+		}
 		for i, it := range c.Items {
 			if tier == "thorough" || i < 8 {
 				raceItems = append(raceItems, it)
